@@ -68,7 +68,7 @@ def proj_c15(l):
 
 
 def proj_c11(l):
-    if l.startswith(("ret", "size ", "rec ", "name ")):
+    if l.startswith(("ret", "size ", "rec ", "name ", "pname ", "dumpw")):
         return l
     if l.startswith("dir "):
         # id:len:durable:hash -> id:len:hash (durability is C04's business)
@@ -313,6 +313,179 @@ def script_is_append(script, ig, gi):
     return gi < len(prim) and prim[gi].startswith("app ")
 
 
+def parse_cfg(script):
+    cfg = {}
+    for l in script:
+        if l.startswith("cfg"):
+            cfg = dict(x.split("=") for x in l.split()[1:])
+    mr = int(cfg["mr"]) if cfg.get("mr", "-") != "-" else 1024 * 1024
+    ms = int(cfg["ms"]) if cfg.get("ms", "-") != "-" else 1024 ** 3
+    return mr, ms
+
+
+def op_records(cmd):
+    """The journal records an accepted call writes, as `rec` text prefixes."""
+    t = cmd.split()
+    if t[0] == "vote":
+        return [f"V {t[1]},{t[2]}"]
+    if t[0] == "commit":
+        return [f"C {t[1]},{t[2]}"]
+    if t[0] == "purge":
+        return [f"P {t[1]},{t[2]}"]
+    if t[0] == "trunc":
+        return ["T "]
+    if t[0] == "ud":
+        return ["S "]
+    if t[0] == "app":
+        out = []
+        for e in t[1:]:
+            a, b, p = e.split(",", 2)
+            out.append(f"A {a},{b} ")
+        return out
+    return []
+
+
+def oracle_c11(script, ig, mg):
+    """On the implementation's observations alone (fresh store, no restart):
+    returned segments are where the records are; records appear once each in
+    call order; files abut; each file starts with the state snapshot taken
+    when it was started; a chunk is closed as soon as it is full; on-disk size
+    is the sum of the retained files."""
+    fails = []
+    prim = primary_cmds(script)
+    if sum(1 for c in prim if c == "open") != 1 or any(c in ("drop", "crash") for c in prim):
+        return fails
+    mr, ms = parse_cfg(script)
+    expected = []  # (global_off, size, rec_prefix) of every journalled record
+    end = None
+    state_after = {}  # chunk id -> st line expected in its head
+    last_st = None
+    for i, cmd in enumerate(prim):
+        if i >= len(ig):
+            break
+        g = ig[i]
+        w = cmd.split()[0]
+        creates = [e.split() for e in g.evs if e.startswith("ev create") and e.endswith("ok")]
+        heads = [e.split() for e in g.evs if e.startswith("ev write c") or e.startswith("ev write o")]
+        if w == "open":
+            if heads:
+                end = int(heads[-1][3]) + int(heads[-1][4])
+                state_after[int(heads[-1][3])] = "vote=- last=- committed=- purged=- ud=-"
+            continue
+        if w in WRITE_WORDS and g.line.startswith("ret ok"):
+            off, size = [int(x) for x in g.line.split()[2].split(",")]
+            recs = op_records(cmd)
+            if w == "purge" and end is not None and off < end and not creates:
+                recs = []  # no-op purge: nothing journalled, previous segment returned
+            if recs:
+                # the last record of the call is at the returned segment
+                expected.append((off, size, recs[-1], i, len(recs)))
+            # rotation(s) during this call
+            for h in heads:
+                cid, hl = int(h[3]), int(h[4])
+                end = cid + hl
+                # filled from a `st` right after this call (a batch may rotate in the middle)
+                state_after[cid] = ("pending", i) if len(recs) == 1 else None
+            if not heads and recs:
+                end = off + size
+            if recs and heads and len(recs) == 1:
+                # single record then rotation: the record ends where the new file starts
+                if off + size != int(heads[0][3]):
+                    fails.append(("segment-does-not-abut-next-chunk", {"group": i, "ret": g.line, "evs": g.evs}))
+                    return fails
+        if g.line.startswith("st ") and g.line != "st none":
+            last_st = g.line[3:]
+            for cid in state_after:
+                v = state_after[cid]
+                if isinstance(v, tuple):
+                    state_after[cid] = last_st if v[1] == i - 1 else None
+        k = i - 1
+        while k >= 0 and ig[k].line.startswith(QUERY_CH):
+            k -= 1
+        if g.line.startswith("stat ") and k >= 0 and prim[k].split()[0] in WRITE_WORDS \
+                and ig[k].line.startswith("ret ok"):
+            m = re.search(r"open=(\d+):(\d+):(\d+):(\d+):", g.line)
+            if m:
+                recs_n, size_n = int(m.group(2)), int(m.group(4))
+                if not (recs_n == 1 or (recs_n < mr and size_n < ms)):
+                    fails.append(("full-chunk-not-closed", {"group": i, "stat": g.line, "mr": mr, "ms": ms}))
+                    return fails
+    # final dump
+    dump_i = next((i for i in range(len(ig) - 1, -1, -1) if ig[i].line.startswith("dumpw")), None)
+    if dump_i is None or ig[dump_i].line != "dumpw end":
+        return fails
+    recs = {}
+    files = {}
+    for l in ig[dump_i].evs:
+        t = l.split(None, 4)
+        if len(t) < 5 or t[3] == "err":
+            fails.append(("dump-error-record", {"line": l}))
+            return fails
+        cid, idx = int(t[1]), int(t[2])
+        off, size = [int(x) for x in t[3].split(",")]
+        files.setdefault(cid, []).append((idx, off, size, t[4]))
+        recs[cid + off] = (size, t[4])
+    ids = sorted(files)
+    for k, cid in enumerate(ids):
+        rs = files[cid]
+        pos = 0
+        for n, (idx, off, size, text) in enumerate(rs):
+            if idx != n or off != pos:
+                fails.append(("records-not-contiguous", {"chunk": cid, "rec": rs[n]}))
+                return fails
+            pos += size
+        if not rs[0][3].startswith("S "):
+            fails.append(("chunk-does-not-start-with-state", {"chunk": cid, "first": rs[0][3]}))
+            return fails
+        want = state_after.get(cid)
+        if isinstance(want, str):
+            f = dict(x.split("=", 1) for x in want.split())
+            head = f"S {f['vote']} {f['last']} {f['committed']} {f['purged']} {f['ud']}"
+            if rs[0][3] != head:
+                fails.append(("head-state-not-the-state-when-file-started",
+                              {"chunk": cid, "head": rs[0][3], "state_then": head}))
+                return fails
+        if k + 1 < len(ids) and cid + pos != ids[k + 1]:
+            fails.append(("files-do-not-abut", {"chunk": cid, "len": pos, "next": ids[k + 1]}))
+            return fails
+    lo = ids[0] if ids else 0
+    seen = 0
+    for off, size, prefix, gi, n in expected:
+        if off < lo:
+            continue
+        got = recs.get(off)
+        if got is None or got[0] != size or not got[1].startswith(prefix):
+            fails.append(("returned-segment-is-not-the-record",
+                          {"group": gi, "segment": [off, size], "expected": prefix, "found": got}))
+            return fails
+        seen += 1
+    # every non-head record on disk belongs to exactly one accepted write, in order
+    on_disk = sorted(o for cid in ids for (idx, o2, sz, tx) in files[cid] if idx > 0 for o in [cid + o2])
+    exp_offs = sorted(off for off, _, _, _, n in expected if off >= lo)
+    batch_extra = sum(n - 1 for off, _, _, _, n in expected if off >= lo)
+    if len(on_disk) < len(exp_offs) or len(on_disk) > len(exp_offs) + batch_extra + sum(
+            n - 1 for off, _, _, _, n in expected if off < lo):
+        fails.append(("record-count-differs-from-accepted-writes",
+                      {"on_disk": len(on_disk), "accepted_last_records": len(exp_offs)}))
+        return fails
+    # directory and size
+    dir_i = next((i for i in range(len(ig) - 1, -1, -1) if ig[i].line.startswith("dir ")), None)
+    if dir_i is not None and dir_i > dump_i - 3:
+        ents = [x.split(":") for x in ig[dir_i].line.split()[1:]]
+        dl = {int(e[0]): int(e[1]) for e in ents}
+        want = {cid: sum(r[2] for r in files[cid]) for cid in ids}
+        if dl != want:
+            fails.append(("directory-differs-from-dump", {"dir": dl, "dump": want}))
+            return fails
+        size_i = next((i for i in range(len(ig) - 1, -1, -1) if ig[i].line.startswith("size ")), None)
+        if size_i is not None and size_i > dump_i - 3:
+            sz = int(ig[size_i].line.split()[1])
+            if sz != sum(dl.values()):
+                fails.append(("on-disk-size-differs", {"reported": sz, "files": dl}))
+                return fails
+    return fails
+
+
 def oracle_none(script, ig, mg):
     return []
 
@@ -402,12 +575,41 @@ def scripts_c11(tier, rng):
     n = 300 if tier == "quick" else 4000
     out, stats = [], {}
     for i in range(n):
-        g = gen.HistGen(rng.fork(), max_ops=35, queries=("stat", "size"), rejected=True)
-        lines = g.script() + ["flush 9999", "widle", "dir", "stat", "size", "dumpw"]
+        g = gen.HistGen(rng.fork(), max_ops=35, queries=(), rejected=(i % 3 == 0), worker_steps=(i % 2 == 0))
+        lines = []
+        for l in g.script():
+            lines.append(l)
+            if l.split()[0] in WRITE_WORDS:
+                lines += ["st", "stat"]
+        lines += ["flush 9999", "widle", "st", "stat", "dir", "size", "dumpw"]
         out.append((f"c11_{i}", lines))
         for k, v in g.stats.items():
             stats[k] = stats.get(k, 0) + v
-    return out, stats
+    # file names: ids over the whole u64 range, malformed names
+    names = []
+    for _ in range(30 if tier == "quick" else 300):
+        lines = []
+        for _ in range(40):
+            k = rng.below(6)
+            if k < 3:
+                lines.append(f"name {gen.rnd_u64(rng)}")
+            elif k == 3:
+                v = gen.rnd_u64(rng)
+                s20 = "%020d" % v
+                grouped = s20[:2] + "".join("_" + s20[j:j + 3] for j in range(2, 20, 3))
+                lines.append(f"pname r-{grouped}.wal")
+            else:
+                base = list("r-00_000_000_000_000_000_079.wal")
+                for _ in range(1 + rng.below(3)):
+                    p = rng.below(len(base))
+                    base[p] = rng.choice(list("0123456789_-rx.wal9"))
+                if rng.chance(1, 5):
+                    base = base[:rng.below(len(base))]
+                nm = "".join(base)
+                if nm and "/" not in nm and nm not in (".", ".."):
+                    lines.append(f"pname {nm}")
+        names.append((f"c11n_{len(names)}", lines))
+    return out + names, stats
 
 
 # ---------------------------------------------------------------------------
@@ -453,8 +655,10 @@ PROPS = {
         assumptions=OS_ASSUMPTIONS,
     ),
     "C11": dict(
-        theorems=[],
-        gen=scripts_c11, project=proj_c11, oracle=oracle_none,
+        theorems=["c11_name_roundtrip", "c11_name_length", "c11_name_injective", "c11_name_order",
+                  "c11_segment_is_record_place", "c11_rotation", "c11_new_chunk_abuts"],
+        gen=scripts_c11, project=proj_c11, oracle=oracle_c11,
+        nontrivial=lambda s: len(s) > 5,
         explanation="journal layout invariant",
         assumptions=OS_ASSUMPTIONS,
     ),
